@@ -274,10 +274,10 @@ def dec_names(payload: bytes):
     pos, n = 0, len(payload)
     while pos < n:
         if n - pos < 2:
-            return {"kind": UNDEF, "why": "names truncated"}
+            return {"kind": UNDEF, "why": "names truncated", "structural": "names"}
         z, ln = payload[pos], payload[pos + 1]
         if pos + 2 + ln > n:
-            return {"kind": UNDEF, "why": "name exceeds data"}
+            return {"kind": UNDEF, "why": "name exceeds data", "structural": "names"}
         try:
             names[z] = payload[pos + 2 : pos + 2 + ln].decode("utf-8")
         except UnicodeDecodeError:
